@@ -628,7 +628,7 @@ impl DcpsDomainParticipant {
 
                         let must_send_acknacks = !heartbeat_submessage.final_flag()
                             || (!heartbeat_submessage.liveliness_flag()
-                                && writer_proxy.missing_changes().count() > 0);
+                                && writer_proxy.missing_changes().next().is_some());
                         writer_proxy.set_must_send_acknacks(must_send_acknacks);
 
                         writer_proxy
@@ -661,7 +661,7 @@ impl DcpsDomainParticipant {
 
                     let must_send_acknacks = !heartbeat_submessage.final_flag()
                         || (!heartbeat_submessage.liveliness_flag()
-                            && writer_proxy.missing_changes().count() > 0);
+                            && writer_proxy.missing_changes().next().is_some());
                     writer_proxy.set_must_send_acknacks(must_send_acknacks);
 
                     writer_proxy
